@@ -188,3 +188,48 @@ def schema_gates(ctx, py, rule="CODEC-GATES"):
     ob = py.func("metadata", "StructCodec.order_by_index")
     so = ast.unparse(ob)
     ctx.ob(rule, "order_by_index", "sorted(" in so and "index" in so, m.loc(ob), "property order is a function of the index/name, not of dict insertion order")
+
+
+def codec_defaults(ctx, py, rule="CODEC-DEFAULTS"):
+    ctx.rule(rule, "schema defaults are honoured by construction: StructCodec.modify_schema forbids additional properties on every "
+                   "object schema regardless of whether `required` was given explicitly, derives `required` from the properties "
+                   "without a default only when absent; JSONCodec collects every property that *has* a default (membership test, so "
+                   "a null default counts) and fills them in on decode")
+    m = py.mod("metadata")
+    fn = py.func("metadata", "StructCodec.modify_schema")
+    pm = {}
+    for p in ast.walk(fn):
+        for c in ast.iter_child_nodes(p):
+            pm[c] = p
+    hits = []
+    for a in ast.walk(fn):
+        if isinstance(a, ast.Assign) and any(isinstance(t, ast.Subscript) and isinstance(t.slice, ast.Constant) and t.slice.value == "additionalProperties"
+                                             for t in a.targets):
+            hits.append(a)
+    ok = len(hits) == 1 and isinstance(hits[0].value, ast.Constant) and hits[0].value.value is False
+    conds = []
+    if hits:
+        p = pm.get(hits[0])
+        while p is not None and p is not fn:
+            if isinstance(p, ast.If):
+                conds.append(ast.unparse(p.test))
+            p = pm.get(p)
+    okc = all("required" not in c for c in conds)
+    ctx.ob(rule, "modify_schema|additionalProperties", ok and okc, m.loc(hits[0] if hits else fn),
+           "ret['additionalProperties'] = False for every object schema (conditions: %s)" % conds if ok and okc else
+           "additionalProperties = False is set only under %s: schemas with an explicit `required` list accept extra keys" % conds)
+    req = [a for a in ast.walk(fn) if isinstance(a, ast.Assign) and any(isinstance(t, ast.Subscript) and isinstance(t.slice, ast.Constant)
+                                                                      and t.slice.value == "required" for t in a.targets)]
+    okr = len(req) == 1 and "'default' not in sub_schema" in ast.unparse(req[0].value)
+    ctx.ob(rule, "modify_schema|required", okr, m.loc(req[0] if req else fn), "required = properties without a default")
+    ji = py.func("metadata", "JSONCodec.__init__")
+    comp = [c for c in ast.walk(ji) if isinstance(c, ast.DictComp)]
+    okd = False
+    why = "no defaults comprehension"
+    if comp:
+        ifs = [ast.unparse(i) for g in comp[0].generators for i in g.ifs]
+        okd = ifs == ["'default' in prop"]
+        why = "defaults collected under %s" % ifs
+    ctx.ob(rule, "JSONCodec|defaults-filter", okd, m.loc(comp[0] if comp else ji), why if okd else why + ": a property whose default is null/falsy is not filled in on decode")
+    jd = ast.unparse(py.func("metadata", "JSONCodec.decode"))
+    ctx.ob(rule, "JSONCodec|fill", "dict(self.defaults, **result)" in jd, m.loc(py.func("metadata", "JSONCodec.decode")), "decode fills defaults under the decoded object")
